@@ -406,9 +406,7 @@ def run(ck):
                     what += "  [shrunk from %d to %d commands: %s]" % (len(meta["lines"]), ncmd, " ; ".join(small.split("\n")[1:1 + min(ncmd, 12)]))
             ck.violation(key, "program %d (%s, arch %d): %s" % (meta["pidx"], meta["kind"], meta["arch"], what), rp)
         # node-list differential with the proven model
-        if any(l.split()[0] in ("NC", "JA", "IJ", "IV") for l in meta["lines"]):
-            oracle_only += 1        # _new_const / jump annotations / invoke nodes are not in the model: judged by the oracle only (counted)
-        elif model and mans:
+        if model and mans:
             m = mans.get(meta["pidx"])
             if m is None or a is None:
                 ck.violation("C08/model-no-answer", "model gave no answer for program %d" % meta["pidx"], {"program": text, "broken": "correspondence stream"}, no_input=True)
